@@ -1142,3 +1142,248 @@ pid_t vs_waitpid(pid_t pid, int *status, int options)
   FINISH(r, ret);
   return ret;
 }
+
+// ---------------------------------------------------------------------------
+// Alternates a correct implementation might use instead of the 27 functions
+// above. They are mapped onto the same ledger / fault / hook machinery so that
+// a behaviour-preserving refactoring of the library does not blind the checks
+// or raise false alarms (a descriptor made by pipe2 is as much the library's
+// own as one made by pipe).
+
+#include <sys/socket.h>
+#include <sys/time.h>
+
+int vs_pipe2(int fds[2], int flags)
+{
+  int r = vs_pipe(fds);
+  if (r == 0 && !g_dry) {
+    if (flags & O_CLOEXEC) {
+      fcntl(fds[0], F_SETFD, FD_CLOEXEC);
+      fcntl(fds[1], F_SETFD, FD_CLOEXEC);
+    }
+    if (flags & O_NONBLOCK) {
+      fcntl(fds[0], F_SETFL, fcntl(fds[0], F_GETFL) | O_NONBLOCK);
+      fcntl(fds[1], F_SETFL, fcntl(fds[1], F_GETFL) | O_NONBLOCK);
+    }
+  }
+  return r;
+}
+
+int vs_dup(int fd)
+{
+  int fidx;
+  struct vs_fault *f = fault_point(VS_FCNTL, &fidx);
+  struct vs_rec *r = rec_begin(VS_FCNTL, fd, F_DUPFD, 0, fidx, 0);
+  if (f) {
+    r->faulted = 1;
+    errno = f->err;
+    FINISH(r, -1);
+    return -1;
+  }
+  int ret = g_dry ? g_dry_nextfd++ : dup(fd);
+  if (ret >= 0 && ret < FD_MAX && g_side == VS_PARENT) {
+    g_fd[ret] = 1;
+    g_fd_ever[ret] = 1;
+  }
+  FINISH(r, ret);
+  return ret;
+}
+
+int vs_dup3(int a, int b, int flags)
+{
+  int ret = vs_dup2(a, b);
+  if (ret >= 0 && (flags & O_CLOEXEC)) {
+    fcntl(b, F_SETFD, FD_CLOEXEC);
+  }
+  return ret;
+}
+
+int vs_sigprocmask(int how, const sigset_t *set, sigset_t *old)
+{
+  int e = vs_pthread_sigmask(how, set, old);
+  if (e != 0) {
+    errno = e;
+    return -1;
+  }
+  return 0;
+}
+
+int vs_ppoll(struct pollfd *fds, nfds_t n, const struct timespec *ts, const sigset_t *mask)
+{
+  (void) mask;
+  int timeout = -1;
+  if (ts != NULL) {
+    long long ms = (long long) ts->tv_sec * 1000 + (ts->tv_nsec + 999999) / 1000000;
+    timeout = ms > 2147483647LL ? 2147483647 : (int) ms;
+  }
+  return vs_poll(fds, n, timeout);
+}
+
+pid_t vs_wait4(pid_t pid, int *status, int options, void *rusage)
+{
+  (void) rusage;
+  return vs_waitpid(pid, status, options);
+}
+
+int vs_waitid(int idtype, id_t id, siginfo_t *info, int options)
+{
+  // Only the form "wait for this child" is mapped; a peek (WNOWAIT) reaps nothing.
+  if (idtype != P_PID || (options & WNOWAIT)) {
+    return waitid((idtype_t) idtype, id, info, options);
+  }
+  int st = 0;
+  pid_t r = vs_waitpid((pid_t) id, &st, (options & WNOHANG) ? WNOHANG : 0);
+  if (r < 0) {
+    return -1;
+  }
+  if (info != NULL) {
+    memset(info, 0, sizeof(*info));
+    if (r > 0) {
+      info->si_pid = r;
+      info->si_signo = SIGCHLD;
+      if (WIFEXITED(st)) {
+        info->si_code = CLD_EXITED;
+        info->si_status = WEXITSTATUS(st);
+      } else {
+        info->si_code = CLD_KILLED;
+        info->si_status = WTERMSIG(st);
+      }
+    }
+  }
+  return 0;
+}
+
+int vs_openat(int dirfd, const char *path, int flags, ...)
+{
+  va_list ap;
+  va_start(ap, flags);
+  int mode = va_arg(ap, int);
+  va_end(ap);
+  if (dirfd == AT_FDCWD || path[0] == '/') {
+    return vs_open(path, flags, mode);
+  }
+  int ret = openat(dirfd, path, flags, mode);
+  if (ret >= 0 && ret < FD_MAX && g_side == VS_PARENT) {
+    g_fd[ret] = 1;
+    g_fd_ever[ret] = 1;
+  }
+  return ret;
+}
+
+int vs_close_range(unsigned lo, unsigned hi, int flags)
+{
+  (void) flags;
+  // expressed through close() so that the ledger and the keep-list logic of
+  // the caller stay visible; descriptors that are not open are skipped
+  for (unsigned fd = lo; fd <= hi && fd < (unsigned) FD_MAX; fd++) {
+    if (fcntl((int) fd, F_GETFD) >= 0) {
+      if (g_side == VS_PARENT) {
+        vs_close((int) fd);
+      } else {
+        close((int) fd);
+      }
+    }
+    if (fd == 0xffffffffu) {
+      break;
+    }
+  }
+  return 0;
+}
+
+void vs__Exit(int status) { vs__exit(status); }
+
+int vs_execv(const char *path, char *const argv[])
+{
+  int fidx;
+  struct vs_fault *f = fault_point(VS_EXECVP, &fidx);
+  struct vs_rec *r = rec_begin(VS_EXECVP, 0, 0, 0, fidx, 0);
+  if (g_side == VS_PARENT) {
+    vs_add_viol("exec called in the parent process");
+    errno = EPERM;
+    return -1;
+  }
+  if (f) {
+    r->faulted = 1;
+    errno = f->err;
+    FINISH(r, -1);
+    return -1;
+  }
+  return execv(path, argv);
+}
+
+int vs_execve(const char *path, char *const argv[], char *const envp[])
+{
+  int fidx;
+  struct vs_fault *f = fault_point(VS_EXECVP, &fidx);
+  struct vs_rec *r = rec_begin(VS_EXECVP, 0, 0, 0, fidx, 0);
+  if (g_side == VS_PARENT) {
+    vs_add_viol("exec called in the parent process");
+    errno = EPERM;
+    return -1;
+  }
+  if (f) {
+    r->faulted = 1;
+    errno = f->err;
+    FINISH(r, -1);
+    return -1;
+  }
+  return execve(path, argv, envp);
+}
+
+int vs_execvpe(const char *file, char *const argv[], char *const envp[])
+{
+  int fidx;
+  struct vs_fault *f = fault_point(VS_EXECVP, &fidx);
+  struct vs_rec *r = rec_begin(VS_EXECVP, 0, 0, 0, fidx, 0);
+  if (g_side == VS_PARENT) {
+    vs_add_viol("exec called in the parent process");
+    errno = EPERM;
+    return -1;
+  }
+  if (f) {
+    r->faulted = 1;
+    errno = f->err;
+    FINISH(r, -1);
+    return -1;
+  }
+  return execvpe(file, argv, envp);
+}
+
+pid_t vs_vfork(void) { return vs_fork(); }
+
+int vs_socketpair(int d, int type, int proto, int sv[2])
+{
+  int fidx;
+  struct vs_fault *f = fault_point(VS_PIPE, &fidx);
+  struct vs_rec *r = rec_begin(VS_PIPE, 0, 0, 0, fidx, 0);
+  if (f) {
+    r->faulted = 1;
+    errno = f->err;
+    FINISH(r, -1);
+    return -1;
+  }
+  int ret = socketpair(d, type, proto, sv);
+  if (ret == 0 && g_side == VS_PARENT) {
+    for (int i = 0; i < 2; i++) {
+      if (sv[i] >= 0 && sv[i] < FD_MAX) {
+        g_fd[sv[i]] = 1;
+        g_fd_ever[sv[i]] = 1;
+      }
+    }
+    r->a0 = sv[0];
+    r->a1 = sv[1];
+  }
+  FINISH(r, ret);
+  return ret;
+}
+
+int vs_gettimeofday(struct timeval *tv, void *tz)
+{
+  int64_t ms;
+  if (vs_hooks.clock && vs_hooks.clock(&ms)) {
+    tv->tv_sec = ms / 1000;
+    tv->tv_usec = (ms % 1000) * 1000;
+    return 0;
+  }
+  return gettimeofday(tv, (struct timezone *) tz);
+}
